@@ -18,6 +18,8 @@ enum Which {
     C04,
     C06,
     C07,
+    /// position independence over the same value space (called from `hist.rs`)
+    C09,
 }
 
 fn which_of(ctx: &Ctx) -> Which {
@@ -25,6 +27,7 @@ fn which_of(ctx: &Ctx) -> Which {
         "C03" => Which::C03,
         "C04" => Which::C04,
         "C06" => Which::C06,
+        "C09" => Which::C09,
         _ => Which::C07,
     }
 }
@@ -150,8 +153,123 @@ fn encode_avp_crate(a: &SAvp) -> Option<(rl2tp::avp::AVP, Result<Vec<u8>, (Strin
     Some((c, r))
 }
 
+/// C09 over the value space: the value encoded (a) three times into one live `VecWriter` that
+/// already received 7 octets, (b) into a `VecWriter` holding exactly one octet (odd offset, no
+/// spare capacity), (c) twice into another conforming `Writer` positioned at 65 533 — each must
+/// give the earlier octets followed by copies of the encoding into an empty writer, and every
+/// positional overwrite must lie inside the value being encoded.
+fn position_check(ctx: &mut Ctx, label: &str, size: usize, desc: &dyn Fn() -> Value, enc_v: &dyn Fn(&mut VecWriter), enc_r: &dyn Fn(&mut crate::monitor::RecordingWriter)) {
+    use rl2tp::common::Writer;
+    let viol = |ctx: &mut Ctx, class: &str, detail: String| {
+        ctx.violation(format!("C09 value-space {class} {label}"), detail, size, desc);
+    };
+    let mut w0 = VecWriter::new();
+    if guarded(|| enc_v(&mut w0)).is_err() {
+        // refused by the encoder or by VecWriter: the latter when the encoder asked for an
+        // overwrite outside what it had written, which a recording Writer shows
+        let mut r = crate::monitor::RecordingWriter::default();
+        let _ = guarded(|| enc_r(&mut r));
+        if let Some(o) = r.out_of_range.first() {
+            viol(ctx, "overwrite-outside-value", format!("into an empty Writer: positional overwrite of {} octets at offset {} (at {}) with only {} octets written", o.len, o.offset, o.site, o.writer_len));
+        }
+        ctx.tally("encode-refused");
+        return;
+    }
+    let alone = w0.data;
+    // (a)
+    let prefix = [0xaau8; 7];
+    let mut w = VecWriter::new();
+    if guarded(|| w.write_bytes(&prefix)).is_ok() && w.data == prefix {
+        let mut want = prefix.to_vec();
+        for k in 1..=3 {
+            let before = want.len();
+            if let Err(p) = guarded(|| enc_v(&mut w)) {
+                viol(ctx, "panics", format!("copy {k} into a live writer holding {before} octets: panic at {}: {}", p.0, p.1));
+                return;
+            }
+            want.extend_from_slice(&alone);
+            if w.data != want || w.len() != want.len() {
+                let at = w.data.iter().zip(want.iter()).position(|(x, y)| x != y).unwrap_or(w.data.len().min(want.len()));
+                viol(
+                    ctx,
+                    if at < before { "earlier-content-changed" } else { "appended-octets-differ" },
+                    format!("copy {k} into a live writer holding {before} octets: differs from earlier content ++ encoding-into-empty at octet {at} (lengths {} vs {})", w.data.len(), want.len()),
+                );
+                return;
+            }
+        }
+    }
+    // (b)
+    let mut w = VecWriter { data: vec![0x5a] };
+    match guarded(|| enc_v(&mut w)) {
+        Err(p) => {
+            viol(ctx, "panics", format!("into a writer holding 1 octet: panic at {}: {}", p.0, p.1));
+            return;
+        }
+        Ok(()) => {
+            if w.data[0] != 0x5a || w.data[1..] != alone[..] {
+                viol(ctx, if w.data[0] != 0x5a { "earlier-content-changed" } else { "appended-octets-differ" }, "into a writer holding 1 octet: differs from the octet ++ encoding-into-empty".into());
+                return;
+            }
+        }
+    }
+    // (c)
+    let base = 65_533usize;
+    let mut r = crate::monitor::RecordingWriter::at_position(base);
+    let mut want: Vec<u8> = Vec::new();
+    for k in 1..=2 {
+        let start = r.len();
+        let seen = r.overwrites.len();
+        if let Err(p) = guarded(|| enc_r(&mut r)) {
+            viol(ctx, "panics", format!("copy {k} at position {start} of another Writer: panic at {}: {}", p.0, p.1));
+            return;
+        }
+        want.extend_from_slice(&alone);
+        if let Some(o) = r.out_of_range.first() {
+            viol(ctx, "overwrite-outside-value", format!("copy {k} at position {start}: positional overwrite of {} octets at offset {} (at {}) with {} octets written", o.len, o.offset, o.site, o.writer_len));
+            return;
+        }
+        if let Some(o) = r.overwrites[seen..].iter().find(|o| o.offset < start) {
+            viol(ctx, "overwrite-outside-value", format!("copy {k} at position {start}: positional overwrite at offset {} (at {}) lies before the value being encoded", o.offset, o.site));
+            return;
+        }
+        if r.data != want {
+            let at = r.data.iter().zip(want.iter()).position(|(x, y)| x != y).unwrap_or(r.data.len().min(want.len()));
+            viol(ctx, "appended-octets-differ", format!("copy {k} at position {start} of another Writer: octets differ from the encoding into an empty VecWriter at octet {at} (lengths {} vs {})", r.data.len(), want.len()));
+            return;
+        }
+    }
+    ctx.guard("value-space-position");
+    ctx.tally("position-independent");
+    ctx.note_nontrivial(fnv(&alone, 9));
+}
+
+fn position_check_avp(ctx: &mut Ctx, a: &SAvp) {
+    let Some(c) = bridge::avp_to_crate(a) else {
+        ctx.tally("unrepresentable");
+        return;
+    };
+    let label = format!("attr{}", a.attr());
+    position_check(ctx, &label, spec::payload_of(a).len(), &|| avp_json(a), &|w| c.write(w), &|w| c.write(w));
+}
+
+fn position_check_msg(ctx: &mut Ctx, m: &SMessage, desc: &dyn Fn() -> Value) {
+    let Some(c) = bridge::message_to_crate(m) else {
+        ctx.tally("unrepresentable");
+        return;
+    };
+    let (label, size) = match m {
+        SMessage::Control { avps, .. } => ("control", avps.len()),
+        SMessage::Data { data, .. } => ("data", data.len()),
+    };
+    position_check(ctx, label, size, desc, &|w| c.write(w), &|w| c.write(w));
+}
+
 fn check_avp(ctx: &mut Ctx, a: &SAvp) {
     let which = which_of(ctx);
+    if which == Which::C09 {
+        return position_check_avp(ctx, a);
+    }
     let Some((c, enc)) = encode_avp_crate(a) else {
         ctx.tally("unrepresentable");
         return;
@@ -246,7 +364,7 @@ fn check_avp(ctx: &mut Ctx, a: &SAvp) {
             }
             ctx.tally("avp-roundtrip");
         }
-        Which::C04 => (),
+        Which::C04 | Which::C09 => (),
     }
     ctx.note_nontrivial(fnv(format!("{a:?}").as_bytes(), 3));
     ctx.sample(|| avp_json(a));
@@ -274,6 +392,9 @@ fn control_in_domain(avps: &[SAvp]) -> bool {
 
 fn check_control(ctx: &mut Ctx, m: &SMessage, desc: &dyn Fn() -> Value) {
     let which = which_of(ctx);
+    if which == Which::C09 {
+        return position_check_msg(ctx, m, desc);
+    }
     let SMessage::Control { tid, sid, ns, nr, avps, .. } = m else { return };
     let Some(enc) = encode_msg_crate(m) else {
         ctx.tally("unrepresentable");
@@ -402,7 +523,7 @@ fn check_control(ctx: &mut Ctx, m: &SMessage, desc: &dyn Fn() -> Value) {
             }
             ctx.tally("control-roundtrip");
         }
-        Which::C04 => (),
+        Which::C04 | Which::C09 => (),
     }
     ctx.note_nontrivial(fnv(format!("{m:?}").as_bytes(), 4));
     ctx.sample(|| desc());
@@ -410,6 +531,9 @@ fn check_control(ctx: &mut Ctx, m: &SMessage, desc: &dyn Fn() -> Value) {
 
 fn check_data(ctx: &mut Ctx, m: &SMessage) {
     let which = which_of(ctx);
+    if which == Which::C09 {
+        return position_check_msg(ctx, m, &|| msg_json(m));
+    }
     let SMessage::Data { prio, length, tid, sid, ns_nr, offset, data } = m else { return };
     let Some(enc) = encode_msg_crate(m) else { return };
     let mut sp = Vec::new();
@@ -529,11 +653,11 @@ fn ctl(tid: u16, sid: u16, ns: u16, nr: u16, length: u16, avps: Vec<SAvp>) -> SM
     SMessage::Control { length, tid, sid, ns, nr, avps }
 }
 
-fn run_values(ctx: &mut Ctx) {
+pub fn run_values(ctx: &mut Ctx) {
     let which = which_of(ctx);
     let tier = ctx.tier;
     ctx.nontrivial_mod = 1;
-    let domain_only = which == Which::C03;
+    let domain_only = which == Which::C03 || which == Which::C09;
     if which != Which::C04 {
         // single AVPs
         for attr in spec::ALL_ATTRS {
@@ -558,7 +682,7 @@ fn run_values(ctx: &mut Ctx) {
             let desc = || avp_json(&a);
             ctx.case(&desc, |ctx| check_avp(ctx, &a));
         }
-        if tier.thorough() {
+        if tier.thorough() && which != Which::C09 {
             // all 2^32 words of each 32-bit kind, one case per 65 536-word block (the debug-
             // assertions profile takes every 16th block plus the first 256)
             let chk = cfg!(debug_assertions);
@@ -725,7 +849,7 @@ fn run_values(ctx: &mut Ctx) {
             }
         }
     }
-    if which == Which::C04 || which == Which::C06 {
+    if which == Which::C04 || which == Which::C06 || which == Which::C09 {
         // every 16-bit value of every data-message field, one field at a time (complete per field)
         for field in 0..6 {
             for x in 0..=0xffffu32 {
@@ -859,7 +983,7 @@ fn check_avp_fast(ctx: &mut Ctx, a: &SAvp) {
             let v = rl2tp::avp::AVP::try_read_greedy(&mut r);
             v.len() != 1 || v[0].as_ref().ok() != Some(&c)
         }
-        Which::C04 => false,
+        Which::C04 | Which::C09 => false,
     };
     if bad {
         ctx.violation(
@@ -876,11 +1000,12 @@ fn which_of_fast(p: &str) -> Which {
         "C03" => Which::C03,
         "C04" => Which::C04,
         "C06" => Which::C06,
+        "C09" => Which::C09,
         _ => Which::C07,
     }
 }
 
-fn replay_values(ctx: &mut Ctx, v: &Value) {
+pub fn replay_values(ctx: &mut Ctx, v: &Value) {
     match v["kind"].as_str() {
         Some("avp") => {
             let Some(a) = SAvp::from_json(&v["avp"]) else {
